@@ -158,6 +158,10 @@ namespace c08
         }
         return HistEv{0, k % 7};
     }
+    // boundary bytes of the "adjacent pair x position" family: control/space, the ends of A-Z and a-z and their neighbours,
+    // DEL, and high-bit bytes whose low 7 bits are (or are next to) letters - a word-at-a-time rewrite makes the result
+    // for one byte depend on its neighbour (a carry out of a high byte into the next lane)
+    static const uint8_t PAIR_BYTES[19] = {0x01, 0x1F, 0x20, '@', 'A', 'Z', '[', '`', 'a', 'z', '{', 0x7F, 0x80, 0xC0, 0xC1, 0xDA, 0xDB, 0xE0, 0xFF};
     inline bool want(const char *fn) { return !ONLY || !strcmp(ONLY, fn); }
     // lengths and positions used by the "large" sub-checks (counters/sizes narrowed to 8 or 16 bits show only there)
     std::vector<size_t> large_lengths();
